@@ -16,7 +16,7 @@ RULE = ('(layout: the clause p(X,Y) :- q(X,_), r(_,Y) with its two anonymous var
         'literal\'s term and to_python equals the reference value (name / int / list / (name,[args]) / None) - every returned value is then changed in place by the caller (all lists inside appended to), which no later conversion on the same engine may show; (every check also on an engine that was used and cleared before the program was loaded) (2) the '
         'same term built with atom/functor/listpair/makelist through the API is used as query argument: exactly one '
         'answer, and the compiled literal read back unifies with it; (3) atoms: yp.atom(n) is yp.atom(n), also when the atom reaches the caller through findall/3, once/1, call/2 or a dynamic fact; atoms and whole terms built on two '
-        'engines unify with each other and with each other\'s compiled literals and dynamic facts, also on an engine that was cleared before loading; (4) every _ is a distinct variable. states = distinct (literal class, '
+        'engines unify with each other and with each other\'s compiled literals and dynamic facts, also on an engine that was cleared before loading; (4) every _ is a distinct variable: every ordered pair of 7 patterns with _ (argument, inside a compound, list element, list tail) in one clause, in head and body, and the triples of the list patterns. states = distinct (literal class, '
         'outcome) observations; transitions = queries; non-trivial = the literal needs quoting, is a list or contains a variable')
 ASSUMPTIONS = ['the generator starts from a TERM, prints it in the documented syntax (\' written as \\\', no other '
                'backslashes) and knows the value to_python must return (RefLiteral)',
@@ -361,6 +361,56 @@ def check_anon(src):
     return None
 
 
+# ---- every _ is a variable of its own, wherever it stands ---------------------------------------------------
+# every ordered pair (and the triples of the list patterns) of 7 patterns that contain _ - as an argument, inside
+# a compound, as list element, as the TAIL of a list pattern - in ONE clause, in the head and in the body
+def anon_patterns():
+    a_, b_ = A('a'), A('b')
+    return [lambda g: g(), lambda g: F('f', g()), lambda g: F('.', g(), g()), lambda g: F('.', a_, g()), lambda g: L([g(), b_], g()),
+            lambda g: F('g', g(), g()), lambda g: L([g()])]
+
+
+def anon_pair_cases():
+    ps = anon_patterns()
+    idx = 0
+    for i in range(len(ps)):
+        for j in range(len(ps)):
+            for form in ('head', 'body'):
+                yield idx, (i, j, -1, form)
+                idx += 1
+    for i in (2, 3, 4):
+        for j in (2, 3, 4):
+            for k in (2, 3, 4):
+                yield idx, (i, j, k, 'head')
+                idx += 1
+
+
+def check_anon_pair(case):
+    i, j, k, form = case
+    ps = anon_patterns()
+    cnt = [0]
+
+    def g():
+        cnt[0] += 1
+        return V(('_', cnt[0]))
+    terms = [ps[i](g), ps[j](g)] + ([ps[k](g)] if k >= 0 else [])
+    names = ['A', 'B', 'C'][:len(terms)]
+    if form == 'head':
+        src = 'u(%s).\n' % ', '.join(show_term(t) for t in terms)
+    else:
+        src = 'u(%s) :- %s.\n' % (', '.join(names), ', '.join('%s = %s' % (n, show_term(t)) for n, t in zip(names, terms)))
+    want = canon(terms)
+    try:
+        yp = impl.new_engine(impl.compile_text(src))
+        vs = [yp.variable() for _ in terms]
+        rows = [impl.observe(vs) for _ in yp.query('u', vs)]
+    except Exception as e:  # noqa: BLE001
+        return ('violation', 'anonymous:raises:' + type(e).__name__, 'program %r raised %r' % (src, e))
+    if rows != [want]:
+        return ('violation', 'anonymous-variables-shared', 'program %r: u(..) answers %r, expected %r (every _ a variable of its own)' % (src, rows, [want]))
+    return None
+
+
 # ---- layout: where a token stands in the source does not matter ------------------------------------
 # the clause  p(X,Y) :- q(X,_), r(_,Y).  with its two anonymous variables at EVERY pair of positions
 # (line a, column b) < (line c, column d) of a grid (the rest of the clause flows around them)
@@ -472,7 +522,7 @@ def run_shard(spec):
         if idx % 4999 == 0:
             acc.sample({'class': cls, 'literal_source': text or show_term(term), 'expected_structure': repr(canon([term]))[:200]}, limit=1)
     flush()
-    for fam, cases, fn in (('layout', layout_cases(tier), check_layout), ('comments', comment_cases(), check_comments)):
+    for fam, cases, fn in (('layout', layout_cases(tier), check_layout), ('comments', comment_cases(), check_comments), ('anonpair', anon_pair_cases(), check_anon_pair)):
         for i, case in cases:
             if i % n != k:
                 continue
@@ -507,6 +557,9 @@ def _jt(t):
 def replay(case):
     if 'layout' in case:
         bad = check_layout(tuple(case['layout']))
+        return [(bad[1], bad[2])] if bad else []
+    if 'anonpair' in case:
+        bad = check_anon_pair(tuple(case['anonpair']))
         return [(bad[1], bad[2])] if bad else []
     if 'comments' in case:
         bad = check_comments(tuple(case['comments']))
